@@ -147,6 +147,18 @@ Theorem C10_width_partition_every_input : forall dmin dmax width r (data : list 
              (width_refs r (fst (width_edges dmin dmax width)) width) data) = 1.
 Proof. exact width_partition_every_input. Qed.
 
+(* NumberOfIntervalsSlicer: numpy.linspace(v0, v1, n, endpoint=False) in binary64 (both of numpy's branches, step == 0 or not) gives
+   non-decreasing interval starts for every finite v0 <= v1 with a representable width and every 1 <= n < 2^62; the whole edge vector
+   starts ++ [v1] is non-decreasing as soon as the last start does not exceed v1.  PARTIAL: that last comparison
+   (fl((n-1)*fl((v1-v0)/n) + v0) <= v1) is checked per case by the correspondence run, not proved *)
+Theorem C10_number_edges_sorted_partial : forall (v0 v1 : PrimFloat.float) (n : nat),
+  PrimFloat.is_finite v0 = true -> PrimFloat.is_finite v1 = true -> PrimFloat.leb v0 v1 = true ->
+  PrimFloat.is_finite (v1 - v0)%float = true -> 1 <= n -> (Z.of_nat n < 2 ^ 62)%Z ->
+  let '(starts, w, edges) := number_edges v0 v1 n in
+  sorted PrimFloat.float fleb starts /\
+  (fleb (last starts v0) v1 = true -> sorted PrimFloat.float fleb edges).
+Proof. exact number_edges_sorted. Qed.
+
 (* non-vacuity of the binary64 statements: width 0.1 from 0 to 0.35 *)
 Example C10_width_nonvacuous :
   PrimFloat.is_finite 0.1%float = true /\ PrimFloat.leb 0 0.1%float = true /\
@@ -183,3 +195,4 @@ Print Assumptions C10_width_slice_nodrop.
 Print Assumptions C10_arange_sorted.
 Print Assumptions C10_width_edges_sorted.
 Print Assumptions C10_width_partition_every_input.
+Print Assumptions C10_number_edges_sorted_partial.
